@@ -27,7 +27,7 @@ RULE = ("datasets per family (daily current+legacy+developer, billing, hourly wi
 ASSUMPTIONS = ["same machine, same library builds: cross-platform bit-equality is not claimed",
                "hourly models are fitted with an explicit seed (seed=None draws from the global RNG and is outside the statement)"]
 REQUIRED_REACH = {"dataset.hourly_seed_0": 2, "dataset.compared": 6, "context.executions": 30, "context.fresh_process": 6, "context.warmed": 4, "context.hashseed_random": 4,
-                  "context.concurrent": 2, "context.batch_permuted": 2, "context.omp4": 2, "context.near_duplicates": 4, "context.other_configurations_first": 6}
+                  "context.concurrent": 2, "context.batch_permuted": 2, "context.omp4": 2, "context.near_duplicates": 4, "context.other_configurations_first": 6, "context.hashseed_fixed_other": 18}
 REQUIRED_REACH_THOROUGH = {"context.cold_numba_cache": 1}
 
 VIOL = []
@@ -64,6 +64,8 @@ def contexts(spec, tier):
     T4 = {"OMP_NUM_THREADS": "4", "OPENBLAS_NUM_THREADS": "4", "MKL_NUM_THREADS": "4"}
     cs = [("fresh-process", dict(repeat=2), {"PYTHONHASHSEED": "0"}),
           ("hashseed-random", dict(), {"PYTHONHASHSEED": "random"}),
+          # fixed, different hash seeds as well: with 'random' alone an order that depends on string hashes agrees with the reference half of the time
+          ("hashseed-one", dict(), {"PYTHONHASHSEED": "1"}), ("hashseed-three", dict(), {"PYTHONHASHSEED": "3"}), ("hashseed-five", dict(), {"PYTHONHASHSEED": "5"}),
           ("blas-threads-4", dict(), dict(T4, PYTHONHASHSEED="0")),
           ("warmed", dict(warm=2, ctx_seed=spec["n"] + 5), {"PYTHONHASHSEED": "0"}),
           ("after-other-configurations-of-the-family", dict(warm=1, other_configurations=True, ctx_seed=spec["n"] + 13), {"PYTHONHASHSEED": "0"}),
@@ -100,6 +102,8 @@ def run_case(spec):
             I.reach("context.other_configurations_first")
         if env.get("PYTHONHASHSEED") == "random":
             I.reach("context.hashseed_random")
+        if env.get("PYTHONHASHSEED") in ("1", "3", "5"):
+            I.reach("context.hashseed_fixed_other")
         if "threads-4" in name or name == "combined":
             I.reach("context.omp4")
         if "batch" in name:
